@@ -311,6 +311,25 @@ func solveAll(fes []*FE, outDir string, timeout, workers int, second bool) {
 	}
 	close(ch)
 	wg.Wait()
+	// robustness against machine load: a handful of undecided (timeout / unknown) obligations get one more attempt with
+	// three times the budget, one at a time; a real violation fails again, a starved solver does not
+	var retry []job
+	for _, j := range jobs {
+		if !j.ob.Smoke && (j.ob.Result == "timeout" || j.ob.Result == "unknown") {
+			retry = append(retry, j)
+		}
+	}
+	if len(retry) > 0 && len(retry) <= 8 {
+		for _, j := range retry {
+			file := filepath.Join(outDir, sanitize(j.ob.Name)+"_retry.smt2")
+			os.WriteFile(file, []byte(j.fe.emit(j.ob)), 0o644)
+			r, f2 := j.fe.decide(j.ob, file, timeout*3, 0)
+			if r.res == "unsat" {
+				j.ob.Result, j.ob.Solver, j.ob.Seconds, j.ob.File, j.ob.Detail, j.ob.Model = "unsat", r.solver+"(retry)", j.ob.Seconds+r.secs, f2, "", ""
+				os.Remove(file)
+			}
+		}
+	}
 }
 
 // decide one obligation: fast path, portfolio, goal splitting (conjunct by conjunct), then case splitting on the
